@@ -2,6 +2,7 @@ mod ctx;
 mod gen;
 mod history;
 mod interp;
+mod mutate;
 mod oracles;
 mod props;
 mod rng;
@@ -67,6 +68,7 @@ fn main() {
                 "C02" => props::c02(&mut c, &b),
                 "C04" => props::c04(&mut c, &b),
                 "C05" => props::c05(&mut c, &b),
+                "C06" => props::c06(&mut c, &b),
                 "C07" => props::c07(&mut c, &b),
                 _ => { eprintln!("unknown property {}", prop); std::process::exit(2); }
             }
